@@ -6,7 +6,7 @@ import math
 import types
 
 from extract import margin_boxes, page_sizes
-from harness import c14_docs, c14_gen as g, c14_percent, c14_regress, c14_sheet
+from harness import c14_docs, c14_gen as g, c14_marks, c14_percent, c14_regress, c14_sheet
 from harness import docs
 from vlib import lean, sx
 from vlib.framework import PropCheck
@@ -347,7 +347,7 @@ class C14(PropCheck):
     id = 'C14'
     extractors = (margin_boxes.generate, page_sizes.generate)
     modules = ('WpModel.Props.C14', 'WpModel.Props.C14Strings', 'WpModel.Props.C14Variable', 'WpModel.Props.C14Groups',
-               'WpModel.Props.C14Parse', 'WpModel.Props.C14Percent', 'WpModel.Props.C14Sheet', 'WpModel.Props.C14Doc',
+               'WpModel.Props.C14Parse', 'WpModel.Props.C14Percent', 'WpModel.Props.C14Sheet', 'WpModel.Props.C14Doc', 'WpModel.Props.C14Marks',
                'WpModel.Witness.C14')
     trusted_base = (
         'modelled, not verified: layout/page.py page_width_or_height, page_width/page_height (+ min_max.py), '
@@ -355,9 +355,9 @@ class C14(PropCheck):
         'remake_page (side/blank), _standardize_page_based_counters; layout/__init__.py initialize_page_maker, '
         'get_string_or_element_for; build.update_counters; css parse_page_selectors, _page_type_match, '
         'add_page_declarations, declaration_precedence; pdf generate_pdf page boxes; layout/percent.py percentage, '
-        'resolve_one_percentage, resolve_percentages (definite containing block), adjust_box_sizing; css/utils.py '
+        'resolve_one_percentage, resolve_percentages (definite and indefinite containing-block height), adjust_box_sizing; css/utils.py '
         'get_length, get_keyword; validation/properties.py size, marks, bleed; computed_values.py length (absolute '
-        'units, em, rem), length_tuple, bleed — hand transcriptions tied by the executable correspondence of every run',
+        'units, em, rem), length_tuple, bleed; draw/__init__.py draw_background (the SVG of crop / cross marks) — hand transcriptions tied by the executable correspondence of every run',
         'PAGE_SIZES / INITIAL_PAGE_SIZE / LENGTHS_TO_PIXELS / LENGTH_UNITS regenerated from computed_values.py and '
         'utils.py by AST each run (Gen/PageSizes.lean), cross-checked against the imported objects',
         'side / corner tables of make_margin_boxes regenerated from page.py by AST each run (Gen/MarginBoxes.lean)',
@@ -379,6 +379,7 @@ class C14(PropCheck):
         self._page_box(run, rng)
         c14_percent.correspondence(self, run)
         c14_sheet.correspondence(self, run)
+        c14_marks.correspondence(self, run)
         self._fixed(run, rng)
         self._variable(run, rng)
         self._sides(run, rng)
@@ -833,8 +834,10 @@ class C14(PropCheck):
                 return c14_regress.judge(meta, impl)
             if fn in ('respct', 'pagepct'):
                 return c14_percent.judge(meta, impl)
-            if fn in ('sizev', 'sizec', 'marksv', 'bleedv', 'bleedc', 'sheet'):
+            if fn in ('sizev', 'sizec', 'marksv', 'bleedv', 'bleedc', 'sheet', 'sheetbox'):
                 return c14_sheet.judge(meta, impl)
+            if fn in ('marks', 'docmarks'):
+                return c14_marks.judge(meta, impl)
         except Exception as exc:  # a clause that cannot be evaluated is not a verdict
             return None
         return None
@@ -852,8 +855,10 @@ class C14(PropCheck):
             return c14_regress.replay(meta)
         if meta.get('fn') in ('respct', 'pagepct'):
             return c14_percent.replay(meta)
-        if meta.get('fn') in ('sizev', 'sizec', 'marksv', 'bleedv', 'bleedc', 'sheet'):
+        if meta.get('fn') in ('sizev', 'sizec', 'marksv', 'bleedv', 'bleedc', 'sheet', 'sheetbox'):
             return c14_sheet.replay(meta)
+        if meta.get('fn') in ('marks', 'docmarks'):
+            return c14_marks.replay(meta)
         if 'html' in meta or meta.get('fn') in ('doc', 'pdf'):
             return c14_docs.replay_doc(meta)
         fn, args = meta.get('fn'), meta.get('args')
@@ -905,19 +910,19 @@ MANIFEST = {
             'models of the page box / margin boxes are exactly resolve_percentages followed by the page algorithms '
             '(refinement); the page box is scale-invariant (make_page_box_scale); box-sizing; size: one/two lengths, names, landscape = swap of portrait in either keyword '
             'order, every ISO/JIS row of the regenerated PAGE_SIZES is the next larger sheet cut in half; marks valid iff '
-            'none|crop|cross|crop cross; bleed:auto = 8px iff marks has crop; render_sound: every page of the document '
+            'none|crop|cross|crop cross; bleed:auto = 8px iff marks has crop; every crop mark lies on the extension of a page-box '
+            'edge outside the page box inside the bleed area, cross-mark circles inside their bleed strip; render_sound: every page of the document '
             'model (the function compared with rendered documents) is makePageBox of a cascaded style + makeMarginBoxes on '
             'its geometry, counter(pages) = number of pages, page sequence = docPages (function-level theorems transported); '
             'render_page_counter: counter(page) = i+1 on every page of a rendered document whose @page rules touch no counter '
             '(through the cascade: cascade_not_declared).',
     'note': 'Trusted: Lean kernel, the AST translator of the margin-box tables, the harness (mock boxes, stubbed content '
             'widths in direct calls; real content widths with the fixed-pitch font in documents). Margin-box content '
-            'layout (line breaking inside margin boxes, its final assertion), crop/cross marks, and the re-make passes of '
+            'layout (line breaking inside margin boxes, its final assertion) and the re-make passes of '
             'make_all_pages are not modelled: documents are generated in two families (page groups in one pass / page '
             'counters in content with re-makes, where PageType.groups is not compared). Known findings: MediaBox mirrored '
-            'for bleed-top != bleed-bottom; @page :nth(2n+) crash; margin boxes overlapping at min-content (deliberate); '
+            'for bleed-top != bleed-bottom; margin boxes overlapping at min-content (deliberate); '
             'three page-group defects (lost on re-make, blank page counted, not started on the first page); element() '
-            'from a named page crashes the margin box; element(start) ignores running elements; @page :nth(+) still '
-            'crashes (StopIteration not caught by repair 9ef10c8). Repaired findings are replayed first in every run '
+            'from a named page crashes the margin box; element(start) ignores running elements. Repaired findings are replayed first in every run '
             '(corpus/C14/fixed_regressions.json).',
 }
